@@ -15,7 +15,7 @@ spec = {
   "exact": bool                              # build with Fractions (exact-rational runs) or floats
 }
 Names: trafo bus B0; feeder f: buses F{f}B{i}, lines F{f}L{i}, breaker F{f}E, disconnectors F{f}L{i}a / F{f}L{i}b;
-tie line T (Ta, Tb); microgrid buses M{i}, lines ML{i}, breaker ME, disconnector ML1a.
+tie lines T{k} (T{k}a, T{k}b); microgrid buses M{i}, lines ML{i}, breaker ME, disconnector ML1a.
 """
 from fractions import Fraction
 
@@ -121,13 +121,14 @@ def build(spec):
                 ds.append(Disconnector(f"F{f}L{i}b", Ls[i], Ls[i].tbus))
             equip(Ls[i], ds)
         fb.append(Bs); fl.append(Ls)
-    tie = None
-    if spec.get("tie"):
-        t = spec["tie"]
+    tie_specs = list(spec.get("ties") or ([spec["tie"]] if spec.get("tie") else []))
+    ties = []
+    for k, t in enumerate(tie_specs):
         a = fb[t["a"][0]][t["a"][1]]; b = fb[t["b"][0]][t["b"][1]]
-        tie = mk_line("T", a, b)
-        ds = [Disconnector("Ta", tie, a), Disconnector("Tb", tie, b)]
-        equip(tie, ds)
+        tl = mk_line(f"T{k}", a, b)
+        ds = [Disconnector(f"T{k}a", tl, a), Disconnector(f"T{k}b", tl, b)]
+        equip(tl, ds)
+        ties.append((t, tl))
     mg = spec.get("mg")
     MB, ML = [], []
     if mg:
@@ -162,9 +163,9 @@ def build(spec):
         dn.add_buses(fb[f])
         dn.add_lines(fl[f][1:])
         dns.append(dn)
-    if tie is not None:
-        dns[spec["tie"]["a"][0]].add_lines([tie])
-        tie.set_backup()
+    for t, tl in ties:
+        dns[t["a"][0]].add_lines([tl])
+        tl.set_backup()
     mgn = None
     if mg:
         mode = {"survival": MicrogridMode.SURVIVAL, "full": MicrogridMode.FULL_SUPPORT, "limited": MicrogridMode.LIMITED_SUPPORT}[mg["mode"]]
